@@ -500,7 +500,9 @@ namespace awkward {
       for (auto content : contents_) {
         if (RecordBuilder* raw = dynamic_cast<RecordBuilder*>(content.get())) {
           if (raw->length() == -1  ||
-              ((check  &&  raw->name() == name)  ||
+              ((check  &&  name != nullptr  &&  raw->nameptr() != nullptr  &&
+                raw->name() == name)  ||
+               (check  &&  name == nullptr  &&  raw->nameptr() == nullptr)  ||
                (!check  &&  raw->nameptr() == name))) {
             tofill = content;
             break;
